@@ -161,6 +161,8 @@ def project(prop, op, line):
         return line
     if op == "rewrite":
         return "rv=0" if line.startswith("rv=0") else line
+    if op in ("locks", "rxeval"):
+        return ""
     head, secs = sections(line)
     S = [parse_S(s) for s in secs if s.startswith("S:") and not s.endswith(":-")]
     C = [parse_C(s) for s in secs if s.startswith("C") and not s.endswith(":gone")]
@@ -232,6 +234,21 @@ def ttl_attr(rng, cfg):
     return (26, a.to_bytes(4, "big") + b"".join(bytes([t, len(v) + 2]) + v for t, v in subs))
 
 
+def ttl_decoys(rng, cfg):
+    """attributes that look like the TTL carrier but are not: same vendor without the TTL sub-attribute,
+    another vendor with the same sub-type, a malformed attribute of the vendor"""
+    a, b = cfg.opts["ttl"]
+    if b == 256 or rng.random() < 0.6:
+        return []
+    other = [t for t in (1, 2, 7, 99) if t != b]
+    pool = [(26, a.to_bytes(4, "big") + bytes([rng.choice(other), 5]) + R.rand_bytes(rng, 3)),
+            (26, (a + 1).to_bytes(4, "big") + bytes([b, 6, 0, 0, 0, 9])),
+            (26, a.to_bytes(4, "big") + bytes([rng.choice(other), 2])),
+            (26, a.to_bytes(4, "big") + bytes([b, 9, 0])),
+            (26, a.to_bytes(4, "big"))]
+    return [rng.choice(pool) for _ in range(rng.randrange(1, 3))]
+
+
 def generic_history(exe, rng, idx, emph, cfg=None):
     E = lambda k, d=0.0: emph.get(k, d)
     cfg = cfg or W.rand_cfg(rng, rewrites=E("rewrites", 0.6) > rng.random(), ttl=E("ttl", 0.5) > rng.random(),
@@ -275,7 +292,7 @@ def generic_history(exe, rng, idx, emph, cfg=None):
                         extra.append((rng.choice([24, 25, 11, 18]), R.rand_bytes(rng, max(0, l))))
                         n -= l + 2
                 if rng.random() < E("p_ttlattr", 0.15):
-                    extra = (extra or []) + [ttl_attr(rng, cfg)]
+                    extra = (extra or []) + ttl_decoys(rng, cfg) + [ttl_attr(rng, cfg)]
                     if rng.random() < 0.15:
                         extra.append(ttl_attr(rng, cfg))
                 pkt = h.make_request(k, code=code, extra=extra, chap=rng.random() < E("p_chap", 0.05),
@@ -321,7 +338,7 @@ def generic_history(exe, rng, idx, emph, cfg=None):
                 if rng.random() < 0.1:
                     attrs.append((26, R.rand_bytes(rng, rng.randrange(0, 5))))
             if rng.random() < E("p_replyttl", 0.05):
-                attrs = (attrs or [(18, b"hi")]) + [ttl_attr(rng, cfg)]
+                attrs = (attrs or [(18, b"hi")]) + ttl_decoys(rng, cfg) + [ttl_attr(rng, cfg)]
             if rng.random() < E("p_replyuser", 0.2):
                 attrs = (attrs or [(18, b"hi")]) + [(1, rng.choice(USERS))]
             pkt = h.make_reply(ent, attrs=attrs)
